@@ -181,6 +181,8 @@ def run_case(c):
         ops[-1].last = 1
     violations = []
     m = NativeMaster(dut.port_from, ops, 0, oracle, c["master_mode"], violations)
+    if r.random() < 0.5:
+        m.scramble_rng = random.Random(c["seed"] + "/scramble")     # cmd / wdata payload is garbage (or already the next address) while valid is low
     m.use_last = True
     m.strobe_semantics = False
     state = dict(flush_final=False, t_final=None, flushes=0)
